@@ -319,6 +319,9 @@ func (e *Exec) setComp(s *State, name, sort, term string) {
 	if _, ok := e.compInit[name]; !ok {
 		e.compTerm(s, name, sort)
 	}
+	if strings.HasPrefix(term, "(") && e.quiet == 0 && len(term) > 24 {
+		term = e.define("h_"+name, sort, term)
+	}
 	s.comp[name] = term
 	if e.discovery && e.cur != nil {
 		w := e.writes[e.cur]
